@@ -80,7 +80,18 @@ func exec(op string, args []string) []string {
 		if err != nil {
 			return []string{"bad-op"}
 		}
-		return probe(gp, strings.Split(args[1], ";"))
+		specs := strings.Split(args[1], ";")
+		out := probe(gp, specs)
+		// "nothing answered" although a responder was scripted: under heavy machine load the 600 ms of wall time can pass
+		// before a delayed answer is read; a real defect fails the second time as well
+		if len(out) == 1 && out[0] == "failed" {
+			for _, sp := range specs {
+				if sp != "x" && sp != "w" {
+					return probe(gp, specs)
+				}
+			}
+		}
+		return out
 	}
 	return []string{"bad-op"}
 }
@@ -171,6 +182,13 @@ func probe(gamePort int, specs []string) []string {
 			if v, ok := m["version"].(string); ok {
 				chosenVer = v
 			}
+		}
+	}
+	// the port is the prober's RESULT; its debug line is only consulted for the dialect tag, which the result does not carry
+	// ("?" when the line is not there: the wording of a log message is no part of any property)
+	if r, ok := res.(portprober.Result); ok && perr == nil {
+		if chosenPort != r.Port {
+			chosenPort, chosenVer = r.Port, "?"
 		}
 	}
 	if errors.Is(perr, portprober.ErrPortDiscoveryFailed) {
